@@ -1,6 +1,7 @@
 """Property table and the per-family runners (DESIGN.md sections 4 and 5)."""
 import collections, json, os, random, re, time
 from vlib import *  # noqa
+from fam_funcs import run_funcs  # noqa
 
 BAG = {
     "pubsub": '<<"join","sub","sub","unsub","pub","pub","pub","leave">>',
@@ -109,6 +110,7 @@ PROPS = {
                      dict(bag="hist", depth=16, quick=60, thorough=800, mode="hist")],
                 classes=["sess", "pubsub", "details", "meta", "metaapi", "rpcroute", "rpcreply"], poison=True),
     "C04": dict(family="hostile", classes=["sess", "pubsub", "rpcreply", "rpcroute", "rpcintr", "metaapi", "meta"]),
+    "C19": dict(family="funcs"),
     "C13": dict(family="core",
                 mc=dict(kinds=MC_RPC_KINDS,
                         inv=["C13_AtMostOneInterrupt", "C13_Modes", "C13_TimeoutExact", "C02_NoLateTimer"],
